@@ -78,6 +78,7 @@ Setup makeSetup() {
   term("S1", Ty::set(Ty::tuple({ X1, X1 })));
   term("S2", Ty::set(Ty::set(X1)));
   term("S3", Ty::set(Ty::tuple({ C1, X1 })));
+  term("S4", Ty::set(Ty::tuple({ X1, Ty::set(X1) })));
   term("D1", Ty::set(X1));
   term("D2", X1);
   term("D3", Ty::integer());
@@ -109,7 +110,7 @@ Setup makeSetup() {
 
 std::vector<Node> leafPool(bool forEval) {
   std::vector<Node> l;
-  for (const char* g : { "X1", "S1", "S2", "D1", "D2", "C1", "D3" }) l.push_back(leaf(K::Global, g));
+  for (const char* g : { "X1", "S1", "S2", "S4", "D1", "D2", "C1", "D3" }) l.push_back(leaf(K::Global, g));
   l.push_back(integer(1)); l.push_back(integer(2));
   { Node e; e.k = K::EmptySet; l.push_back(e); }
   if (!forEval) {
@@ -219,7 +220,7 @@ void run_types(Ctx& c, const Setup& setup, const rsgen::Generator& gen, int dept
     if (i % 7919 == 5) c.rep.sample(rsast::render(T, RenderOpt{}).text + (modelOk ? "  :  " + mr.type.str() : "  :  ill-typed (" + mr.why + ")"));
     c.done();
   };
-  try { gen.closedStream(depth, one); gen.imperativeChains(one, 2); streamDefinitions(gen, one); } catch (const StopEnumeration&) {}
+  try { gen.scopeSkeletons(static_cast<int>(c.opt->num("scopebudget", 6)), one); gen.closedStream(depth, one); gen.imperativeChains(one, 2); streamDefinitions(gen, one); } catch (const StopEnumeration&) {}
 }
 
 
@@ -271,6 +272,10 @@ void interpretations(const std::set<std::string>& names, int maxBase, bool fullP
     std::vector<Val> pairs; for (auto& a : x1) for (auto& b : x1) pairs.push_back(Val::tuple({ a, b }));
     if (names.count("S1")) dims.push_back({ "S1", subsetsOf(pairs) });
     if (names.count("S2")) dims.push_back({ "S2", subsetsOf(subsetsOf(x1)) });
+    if (names.count("S4")) { std::vector<Val> u; const auto subs = subsetsOf(x1);   // S4 ⊆ X1×ℬ(X1): all subsets of a 4-element sub-universe
+      for (size_t i = 0; i < x1.size(); ++i) { u.push_back(Val::tuple({ x1[i], subs.front() })); u.push_back(Val::tuple({ x1[i], subs.back() })); }
+      if (u.size() > 4) u.resize(4);
+      dims.push_back({ "S4", subsetsOf(u) }); }
     if (names.count("D1")) dims.push_back({ "D1", subsetsOf(x1) });
     if (names.count("D2")) dims.push_back({ "D2", x1 });
     if (names.count("D3")) dims.push_back({ "D3", { Val::integer(0), Val::integer(2) } });
@@ -478,7 +483,7 @@ void run_eval(Ctx& c, const Setup& setup, const rsgen::Generator& gen, int depth
     if (i % 4001 == 3) c.rep.sample(text + "  under " + std::to_string(interps) + " interpretations");
     c.done();
   };
-  try { for (auto& n : curated()) one(Node(n)); gen.imperativeChains(one, static_cast<size_t>(c.opt->num("impblocks", 3))); gen.closedStream(depth, one); } catch (const StopEnumeration&) {}
+  try { for (auto& n : curated()) one(Node(n)); gen.imperativeChains(one, static_cast<size_t>(c.opt->num("impblocks", compareModel ? 3 : 2)), static_cast<size_t>(c.opt->num("impcap", compareModel ? 5 : 3))); gen.closedStream(depth, one); } catch (const StopEnumeration&) {}
 }
 
 }  // namespace
@@ -512,7 +517,7 @@ int main(int argc, char** argv) {
     res.rule = cmp ? "case = well-typed expression; per interpretation x {MATH, ASCII, max parentheses} x {enumerated, lazy power set / product}: Interpreter::Evaluate must equal the reference evaluator's value; documented failures only where some evaluation order meets the condition; non-trivial = produced a value under some interpretation"
                    : "case = any generated expression the implementation's checker accepts (well-typed ones and one-premise-violations alike); per interpretation: no fault (ASan/UBSan), no exception, no unknownError, truth value iff LOGIC, value has the deep structure of the reported typification";
   } else { fprintf(stderr, "unknown mode\n"); return 2; }
-  res.alphabet = "context: X1 X2 (nominal bases), C1 (integral constant set), S1:ℬ(X1×X1) S2:ℬℬ(X1) S3:ℬ(C1×X1) D1:ℬ(X1) D2:X1 D3:Z D4:props, A1:LOGIC, F1[a∈ℬ(R1)] F2[a∈X1,b∈ℬ(X1)] F3[a∈R1×R2] F4[a∈ℬ(R1×R2)] P1[a∈X1]; literals 1 2 ∅ Z; missing X9; all node constructors";
+  res.alphabet = "context: X1 X2 (nominal bases), C1 (integral constant set), S1:ℬ(X1×X1) S2:ℬℬ(X1) S3:ℬ(C1×X1) S4:ℬ(X1×ℬ(X1)) D1:ℬ(X1) D2:X1 D3:Z D4:props, A1:LOGIC, F1[a∈ℬ(R1)] F2[a∈X1,b∈ℬ(X1)] F3[a∈R1×R2] F4[a∈ℬ(R1×R2)] P1[a∈X1]; literals 1 2 ∅ Z; missing X9; all node constructors";
   res.evaluations = res.rep.counters["evaluations"]; res.transitions = res.rep.counters["checks"]; res.traces_validated = res.evaluations;
   res.distinct_nontrivial = res.rep.counters["nontrivial"];
   res.exhaustive = !ri.deadline_hit && !ri.crash_cap_hit;
